@@ -217,7 +217,6 @@ func lemmaCmpTrans(a, b, c Object) (ab, bc, ac int, eab, ebc, eac bool) {
 
 // SaveGlobals reports the first write error: when it returns nil no write to `to` failed (ghost werr unchanged).
 //@ func (*Environment).SaveGlobals
-//@   requires e != nil && to != nil
 //@   modifies heap, ghost werr
 //@   nosafety
 //@   ensures  noerr:: implies(result1 == nil, ghost("werr", ifaceval(to)) == old(ghost("werr", ifaceval(to))))
